@@ -635,9 +635,22 @@ class Interp:
             if not broke:
                 self.exec_block(st.orelse)
             return
-        items = self.B.iterate(self, it)
-        if len(items) > self.MAX_UNROLL:
-            raise Unsupported("loop too long to unroll")
+        if type(it) is list:
+            # a Python list is iterated LIVE, by index, as CPython does: a body that removes / inserts elements of the list it iterates over
+            # skips or repeats elements exactly as the real run would
+            class _Live:
+                def __iter__(s):
+                    i = 0
+                    while i < len(it):
+                        if i >= self.MAX_UNROLL:
+                            raise Unsupported("loop too long to unroll")
+                        yield it[i]
+                        i += 1
+            items = _Live()
+        else:
+            items = self.B.iterate(self, it)
+            if len(items) > self.MAX_UNROLL:
+                raise Unsupported("loop too long to unroll")
         broke = False
         for x in items:
             self.assign(st.target, x)
